@@ -110,6 +110,10 @@ pub fn gen_desc(rng: &mut Rng) -> String {
     if rng.chance(2, 3) {
         return String::new();
     }
+    gen_desc_text(rng)
+}
+
+fn gen_desc_text(rng: &mut Rng) -> String {
     const CH: &[u8] = b"abcdefghijklmnopqrstuvwxyz0123456789=:,;()[] >@+";
     let n = rng.usize(1, 20);
     let mut s = String::new();
@@ -131,6 +135,9 @@ pub struct RecGen {
     pub min_len: usize,
     /// probability (percent) that a record duplicates an earlier sequence
     pub dup_pct: u64,
+    /// probability (percent) that a description is separated from the id by a
+    /// TAB instead of a blank (C06 only: the id is the first *word*)
+    pub tab_desc_pct: u64,
 }
 
 const ALPHAS: [Alpha; 7] = [
@@ -166,9 +173,13 @@ impl RecGen {
                 let len = gen_len(rng, &self.marks, self.max_len).max(self.min_len);
                 gen_seq(rng, len, alpha)
             };
+            let mut desc = gen_desc(rng);
+            if !desc.is_empty() && rng.below(100) < self.tab_desc_pct {
+                desc = format!("\t{desc}");
+            }
             out.push(Rec {
                 id: gen_id(rng, i),
-                desc: gen_desc(rng),
+                desc,
                 seq,
             });
         }
@@ -227,6 +238,7 @@ pub fn gen_container(rng: &mut Rng, records: &[Rec], allow_multi_member: bool, a
         c.gz = Some(Gz {
             cuts,
             snap,
+            empty_tail: allow_multi_member && rng.chance(1, 4),
             level: *rng.pick(&[0u32, 1, 6, 9]),
         });
     }
